@@ -1,6 +1,7 @@
 CONSTANTS
  Mode = "gen"
  HistLen = 7
+ LenientRelabel = FALSE
  RestartSets = {{}, {3}, {5}}
  Pinned = FALSE
 INIT IInit
